@@ -21,9 +21,15 @@ import (
 
 // fetchImage obtains the full image of fx's tree by one route. (nil, nil) = creation failed with an error.
 func fetchImage(fx *isoFixture, ps3 bool, route string) ([]byte, error) {
+	return fetchImageSpelled(fx, ps3, route, "")
+}
+
+// fetchImageSpelled: spell is appended to the directory's path as the caller writes it ("/", "/.", "//": the same
+// directory, spelled the way shell completion or a careless client spells it).
+func fetchImageSpelled(fx *isoFixture, ps3 bool, route, spell string) ([]byte, error) {
 	switch route {
 	case "lib":
-		viso, err := pfs.NewVirtualISO(fx.Fs, fx.Root, ps3)
+		viso, err := pfs.NewVirtualISO(fx.Fs, fx.Root+spell, ps3)
 		if err != nil {
 			return nil, nil
 		}
@@ -39,7 +45,7 @@ func fetchImage(fx *isoFixture, ps3 bool, route string) ([]byte, error) {
 			return nil, err
 		}
 		defer tg.Close()
-		return fetchImageNet(tg.Addr, fx.Root, ps3)
+		return fetchImageNet(tg.Addr, fx.Root+spell, ps3)
 	case "makeiso":
 		out, err := os.CreateTemp(fx.Tmp, "mk*.iso")
 		if err != nil {
@@ -53,7 +59,7 @@ func fetchImage(fx *isoFixture, ps3 bool, route string) ([]byte, error) {
 		if ps3 {
 			args = append(args, "--ps3-mode")
 		}
-		args = append(args, filepath.Join(fx.Tmp, strings.TrimPrefix(fx.Root, "/")), name)
+		args = append(args, filepath.Join(fx.Tmp, strings.TrimPrefix(fx.Root, "/"))+spell, name)
 		cmd := exec.Command(hx.BinPath(), args...)
 		cmd.Env = []string{"PATH=/usr/bin:/bin", "HOME=/nonexistent-home"}
 		cmd.Dir = fx.Tmp
@@ -155,11 +161,19 @@ type c18Case struct {
 	TitleID    string   `json:"title_id,omitempty"`
 	RootName   string   `json:"root_name"`
 	Routes     []string `json:"routes"`
+	Spellings  []string `json:"spellings,omitempty"` // per open: suffix to the directory path as written
 	Concurrent bool     `json:"concurrent"`
 	// DelayMs: pause between successive opens ("again - later": opens in different wall-clock seconds)
 	DelayMs int `json:"delay_ms,omitempty"`
 	// FutureMTimes: some objects carry modification times in the future (clock skew is a real-life thing)
 	FutureMTimes bool `json:"future_mtimes,omitempty"`
+}
+
+func (c c18Case) spelling(i int) string {
+	if i < len(c.Spellings) {
+		return c.Spellings[i]
+	}
+	return ""
 }
 
 func genC18(t *rapid.T) c18Case {
@@ -171,6 +185,7 @@ func genC18(t *rapid.T) c18Case {
 	n := rapid.IntRange(2, 6).Draw(t, "opens")
 	for i := 0; i < n; i++ {
 		c.Routes = append(c.Routes, rapid.SampledFrom([]string{"lib", "lib", "net", "makeiso"}).Draw(t, fmt.Sprintf("route%d", i)))
+		c.Spellings = append(c.Spellings, rapid.SampledFrom([]string{"", "", "", "/", "/.", "//", "/./"}).Draw(t, fmt.Sprintf("spell%d", i)))
 	}
 	c.Concurrent = rapid.Bool().Draw(t, "concurrent")
 	if !c.Concurrent && rapid.IntRange(0, 5).Draw(t, "delayed") == 0 {
@@ -212,7 +227,7 @@ func runC18(c c18Case, st *hx.Stats) error {
 				defer wg.Done()
 				errs[i] = hx.SafeRun(func() error {
 					var e error
-					imgs[i], e = fetchImage(fx, c.PS3, r)
+					imgs[i], e = fetchImageSpelled(fx, c.PS3, r, c.spelling(i))
 					return e
 				})
 			}(i, r)
@@ -223,7 +238,7 @@ func runC18(c c18Case, st *hx.Stats) error {
 			if i > 0 && c.DelayMs > 0 {
 				time.Sleep(time.Duration(c.DelayMs) * time.Millisecond)
 			}
-			imgs[i], errs[i] = fetchImage(fx, c.PS3, r)
+			imgs[i], errs[i] = fetchImageSpelled(fx, c.PS3, r, c.spelling(i))
 		}
 	}
 	for _, e := range errs {
@@ -238,6 +253,12 @@ func runC18(c c18Case, st *hx.Stats) error {
 	}
 	if c.DelayMs > 0 {
 		st.Label("opens in different wall-clock seconds")
+	}
+	for i := range c.Routes {
+		if c.spelling(i) != "" {
+			st.Label("directory path spelled with a trailing separator or dot")
+			break
+		}
 	}
 	if c.FutureMTimes {
 		st.Label("tree with modification times in the future")
